@@ -185,17 +185,82 @@ def run_group(acc, wd, gi, rng, seed):
     shutil.rmtree(root, ignore_errors=True)
 
 
+def run_layouts(acc, wd, gi, rng, seed):
+    """Independent inputs in different directories whose includes resolve through the includer's own directory
+    (same include string, different sibling files) and through a trailing -I directory; alone vs together, every
+    order. Whatever else is compiled in the same run, each input must produce the same bytes."""
+    root = os.path.join(wd, 'l%d' % gi)
+    dirs = {n: os.path.join(root, n) for n in ('alpha', 'beta', 'gamma', 'inc0', 'inc1')}
+    for d in dirs.values():
+        os.makedirs(d)
+    inputs = {}
+    for k, n in enumerate(('alpha', 'beta', 'gamma')):
+        # sibling file with the SAME name in every directory, different content
+        open(os.path.join(dirs[n], 'types.prophy'), 'w').write(
+            'const LEN_%s = %d;\nstruct Item_%s { u%d v; };\n' % (n, k + 2, n, 8 << k))
+        body = ('#include "types.prophy"\n#include "common.prophy"\n'
+                'struct Main_%s { Item_%s items[LEN_%s]; Shared s; u16 tail[SHARED_LEN]; };\n' % (n, n, n))
+        p = os.path.join(dirs[n], n + '.prophy')
+        open(p, 'w').write(body)
+        inputs[n] = p
+    # common.prophy lives only in the LAST -I directory
+    open(os.path.join(dirs['inc1'], 'common.prophy'), 'w').write(
+        'const SHARED_LEN = %d;\nstruct Shared { u32 x; u8 y; };\n' % rng.randint(2, 5))
+    open(os.path.join(dirs['inc0'], 'unused.prophy'), 'w').write('const UNUSED = 1;\n')
+    results = {}
+
+    def go(tag, names, hashseed='0'):
+        out = os.path.join(root, 'out_' + tag)
+        os.makedirs(out)
+        args = ['--quiet', '-I', dirs['inc0'], '-I', dirs['inc1']]
+        for o in OUTS:
+            args += [o, out]
+        rc, so, se = pc.run_cli(args + [inputs[n] for n in names], cwd=root, hashseed=hashseed)
+        acc.ev()
+        acc.count('cli_runs')
+        acc.count('layout_runs')
+        acc.sig((gi, seed, 'layout', tag))
+        results[tag] = (rc, se, snapshot(out) if rc == 0 else None)
+    for n in inputs:
+        go('alone-' + n, [n])
+    import itertools
+    orders = list(itertools.permutations(['alpha', 'beta', 'gamma']))
+    rng.shuffle(orders)
+    for order in orders[:4] + [('alpha', 'beta'), ('beta', 'alpha'), ('gamma', 'alpha')]:
+        go('together-' + '-'.join(order), list(order), hashseed=str(rng.randint(0, 3)))
+    for tag, (rc, se, snap) in results.items():
+        if rc != 0:
+            kind = 'alone' if tag.startswith('alone') else 'together'
+            acc.violation(PROP, 'valid-inputs-fail-%s' % kind, {'run': tag, 'rc': rc, 'stderr': se[-500:], 'seed': seed})
+            continue
+        if tag.startswith('alone'):
+            continue
+        for n in tag.split('-')[1:]:
+            ref = results['alone-' + n][2]
+            if ref is None:
+                continue
+            for fn, data in ref.items():
+                if fn.split('.')[0] in ('types', 'common'):
+                    continue
+                acc.count('files_compared')
+                if snap.get(fn) != data:
+                    acc.violation(PROP, 'output-depends-on-other-inputs-of-the-run:%s' % fn.split('.', 1)[-1],
+                                  {'run': tag, 'file': fn, 'seed': seed})
+    shutil.rmtree(root, ignore_errors=True)
+
+
 def run_shard(spec):
     acc = Acc()
     rng = random.Random(spec['seed'])
     with C.Workdir() as wd:
         for gi in range(spec['groups']):
             run_group(acc, wd, gi, rng, spec['seed'])
+        run_layouts(acc, wd, 0, rng, spec['seed'])
     return acc.done()
 
 
 def finish(ctx, merged, specs):
-    missing = [k for k in ('cli_runs', 'files_compared', 'in_process_runs') if not merged['counters'].get(k)]
+    missing = [k for k in ('cli_runs', 'files_compared', 'in_process_runs', 'layout_runs') if not merged['counters'].get(k)]
     if merged['counters'].get('prerequisite_failures', 0) > merged['counters'].get('cli_runs', 0) // 4:
         missing.append('too many prerequisite failures')
     if missing and not merged['inconclusive']:
